@@ -30,7 +30,7 @@ def run(ctx):
                             "types re-drawn per event, validators raising by plan, unknown and near-miss event names, "
                             "rtc x allow x sync/async); non-trivial = some send evaluated guards/validators of >=2 "
                             "callbacks or ended in an exception; distinct = hash of scenario text")
-    engine_check(ctx, PROFILE, 900, 20000, nontrivial, monitor=c01_monitor, tag="C01s")
+    engine_check(ctx, PROFILE, 900, 20000, nontrivial, monitor=c01_monitor, tag="C01s", share=0.62)
     cov1 = dict(ctx.coverage)
     engine_check(ctx, PROFILE_ASYNC, 300, 8000, nontrivial, monitor=c01_monitor, tag="C01a")
     for k in ("evaluations", "distinct_nontrivial", "traces_validated_against_impl", "disagreements", "monitor_failures"):
